@@ -1222,6 +1222,13 @@ def desc1(cfg, which='all'):
                 problems.append((e.get('loc'), '%s() selects the child by %s, not by the first byte of the shifted working key' % (e['name'], xsig(f, e['args'][1])[:40])))
             if e['name'] != 'find_child' and not any(is_key(a) for a in e['args'][2:]):
                 problems.append((e.get('loc'), '%s() does not receive the operation\'s full key' % e['name']))
+        # every single BYTE of a key that the descent looks at is a byte of the shifted working copy: the unshifted key is only
+        # compared whole (leaf cmp / matches) or handed on whole
+        for b, i, e in f.elements():
+            if e.get('k') == 'call' and e.get('name') == 'operator[]' and 'basic_art_key<' in ((e.get('cls') or '') + (e.get('callee') or '')) and not is_assert_elem(e):
+                ob = e.get('obj') if e.get('obj') is not None else (e['args'][0] if e.get('args') else None)
+                if ob is not None and is_key(ob) and not is_rem(ob):
+                    problems.append((e.get('loc'), 'a single byte of the UNSHIFTED key (%s[...]) is examined inside the descent: below the root its bytes are not aligned with the node at hand (only the shifted working copy is), so the decision is taken on the wrong byte' % xsig(f, ob)[:30]))
         sp = [(b, i, e) for b, i, e in shifts if e.get('args') and plen_like(e['args'][0])]
         s1 = [(b, i, e) for b, i, e in shifts if e.get('args') and isinstance(f.strip_casts(e['args'][0]), dict) and f.strip_casts(e['args'][0]).get('k') == 'int' and int(f.strip_casts(e['args'][0]).get('v', 0)) == 1]
         if len(shifts) != len(sp) + len(s1):
